@@ -1,11 +1,11 @@
 #!/bin/bash
 # usage: tools/run_seeded.sh [seed-id ...]   -- applies each seeded change to /repo, runs the quick check of its property, expects a VIOLATION,
-# and undoes the change (git apply / git checkout, never stash). Refuses to run on a dirty /repo. Writes seeded/RESULTS.txt.
+# and undoes the change (git apply / git checkout, never stash). Refuses to run on a dirty /repo. Writes seeded/LAST_RUN.txt (seeded/RESULTS.txt is the curated summary).
 set -u
 cd /verif
 if [ -n "$(git -C /repo status --porcelain --untracked-files=no)" ]; then echo "/repo has uncommitted changes: refusing"; exit 2; fi
 IDS=${@:-$(ls seeded | grep '^C')}
-OUT=seeded/RESULTS.txt; : > $OUT.tmp
+OUT=seeded/LAST_RUN.txt; : > $OUT.tmp
 for id in $IDS; do
   pid=${id%%-*}
   if ! git -C /repo apply --check /verif/seeded/$id/patch.diff 2>/dev/null; then echo "$id patch-does-not-apply-at-HEAD" | tee -a $OUT.tmp; continue; fi
@@ -15,6 +15,7 @@ for id in $IDS; do
   first=$(grep -m1 '^VIOLATION' /tmp/seeded_$id.log | cut -c1-160)
   what=$(grep -m1 'detail:\|broken' /tmp/seeded_$id.log | cut -c1-200)
   git -C /repo checkout -- .
+  python3 translator/extract.py > /dev/null 2>&1   # the check regenerated lean/TrVerif/Generated/Tables.lean from the changed tree: regenerate it from the clean one
   echo "$id rc=$rc $(( $(date +%s) - t0 ))s ${first:-NO-VIOLATION} | $what" | tee -a $OUT.tmp
 done
 mv $OUT.tmp $OUT
